@@ -26,8 +26,8 @@ Print Assumptions C08_check_none.
 
 (* The property for every straight-line history (literal construction, append, re-assignment by a literal,
    element assignment, indexing of the array and of a string with literal / constant / opaque indices of any
-   integer type, len, prints, and calls that hand the array by plain name to a user function which appends k >= 0
-   elements, only reads, assigns or reads an element through its []T parameter): either the program is accepted and what reaches the pipe, and how the program ends
+   integer type and through any access path, len, prints, and calls that hand the array by plain name to a user
+   function which appends k >= 0 elements or only reads): either the program is accepted and what reaches the pipe, and how the program ends
    (exit 0 / "panic: index out of bounds" with a non-zero status), is exactly what the list semantics `spec`
    prescribes — every valid index (negative ones and positions created by appends included) yields the stored
    element, the first invalid one panics, all lines printed before the panic are delivered — or it is rejected
@@ -67,6 +67,20 @@ Theorem C08_set_stores :
   forall l k v, (k < length l)%nat -> nth k (upd l k v) 0 = v.
 Proof. exact upd_nth_same. Qed.
 Print Assumptions C08_set_stores.
+
+(* The outcome of an access depends only on (length, index), not on how the container is reached: replacing every
+   access path (by-value / & / &' parameter, reference local, struct field by value or through a reference,
+   element of an array of containers) by the direct local leaves the generated-code model and the reference
+   unchanged. The correspondence run ranges over the paths; this is what it is compared against. *)
+Theorem C08_path_irrelevant_exec :
+  forall mem ops a c, exec mem (map direct_op ops) a c = exec mem ops a c.
+Proof. exact exec_path_irrelevant. Qed.
+Print Assumptions C08_path_irrelevant_exec.
+
+Theorem C08_path_irrelevant_spec :
+  forall str ops l out, spec str (map direct_op ops) l out = spec str ops l out.
+Proof. exact spec_path_irrelevant. Qed.
+Print Assumptions C08_path_irrelevant_spec.
 
 (* why the three repairs are needed: the code before them violates the property (witnesses replayed by the harness) *)
 Theorem C08_trunc_refuted :
